@@ -45,7 +45,12 @@ def main():
         sh("git checkout -- evidence", ROOT)
     mp = os.path.join(dst, "meta.json")
     meta = json.load(open(mp))
-    meta.setdefault("checks_against_it", {}).update(results)
+    old = meta.setdefault("checks_against_it", {})
+    for p, r in results.items():
+        if p in old and old[p].get("exit") == 0 and r.get("exit") == 1:
+            r["first_run"] = {k: v for k, v in old[p].items() if k != "first_run"}
+            r["note"] = "MISSED by the check as it was when the change was first evaluated; detected after the check was strengthened (DESIGN.md section 14)"
+        old[p] = r
     json.dump(meta, open(mp, "w"), indent=1)
     return 0
 
